@@ -16,6 +16,12 @@ Theorem C07_untargeted_attributes_keep_their_value :
     lookup k it' = match lookup k it with Some v => pass_through v | None => None end.
 Proof. exact update_frame. Qed.
 
+(* an attribute literally named like a value placeholder of the request is out of the expression's reach: unchanged *)
+Theorem C07_placeholder_named_attribute_kept_exactly :
+  forall expr it vals names it' k,
+    lang_update expr it vals names = Ok it' -> mem k vals = true -> lookup k it' = lookup k it.
+Proof. exact update_frame_placeholder_named. Qed.
+
 (* one action changes only the attribute it targets *)
 Theorem C07_action_frame :
   forall e a e' k, eval_action e a = Some e' -> action_target (aliases e) a <> Some k ->
